@@ -51,7 +51,11 @@ def run(F, R, tier):
         g = guards_at(F, c)
         conds = [x for x in g if x.kind == "cond"]
         pats = [x for x in g if x.kind == "pat"]
-        ok = all((not x.pol and expr_text(x.node) == "is_ambient") for x in conds) and len(pats) == 1 and "body" in expr_text(pats[0].scrut)
+        # the ambient flag: the bool parameter whose true edge returns right at the start of the function
+        first = tf["body"]["value"]["stmts"][0] if tf["body"]["value"].get("stmts") else {}
+        first = first.get("e", first)
+        amb = peel(first.get("cond", {})).get("lid") if first.get("k") == "If" and diverges(F, first.get("then", {})) else None
+        ok = amb is not None and all((not x.pol and peel(x.node).get("lid") == amb) for x in conds) and len(pats) == 1 and mentions_field(pats[0].scrut, "body")
         R.ob("C10-a", "the body is cleared whenever the function is not ambient and has a body", ok,
              "body.stmts.clear() is additionally guarded by %s: some function bodies survive into the output" % [x.text()[:50] for x in g], where(c))
         pushes = [n for n in tf["_nodes"] if n.get("k") == "MethodCall" and n["name"] in ("push", "insert", "extend") and peel(n["recv"]).get("field") == "stmts"]
@@ -66,7 +70,7 @@ def run(F, R, tier):
             for kind, node, st in fl.exits:
                 if st is False and kind in ("return", "fallthrough"):
                     gg = guards_at(F, node) if kind == "return" else []
-                    if any(x.kind == "cond" and x.pol and expr_text(x.node) == "is_ambient" for x in gg):
+                    if any(x.kind == "cond" and x.pol and peel(x.node).get("lid") == amb for x in gg):
                         continue
                     bad.append(node)
             R.ob("C10-a", "transform_fn resets %s on every non-ambient path" % fld, len(a) == 1 and not bad, "a path leaves %s set" % fld, tf["file"])
@@ -90,7 +94,7 @@ def run(F, R, tier):
 
     # ---------------- C10-b ------------------------------------------------
     ml = F.body(T + "maybe_transform_expr_if_leavable")
-    mm = [n for n in ml["_nodes"] if n["k"] == "Match" and expr_text(n["scrut"]) == "expr"]
+    mm = [n for n in ml["_nodes"] if n["k"] == "Match" and tyc(F, n["scrut"], "::Expr") and peel(n["scrut"]).get("lid") == ml["body"]["params"][1].get("lid")]
     if R.ob("C10-b", "leavable-expression match found", len(mm) == 1, "shape changed", ml["file"]):
         seen = set()
         ca = False
@@ -122,7 +126,7 @@ def run(F, R, tier):
                     continue
                 n_comp += 1
                 binds = {b["lid"] for b in pat_bindings(arm["pat"])}
-                rec = [x for x in walk(arm["body"]) if x.get("k") in ("Call", "MethodCall") and ((x.get("k") == "Call" and "f" in x and expr_text(x["f"]) == "recurse") or callee_matches(x, [T + "maybe_transform_expr_if_leavable"]))]
+                rec = [x for x in walk(arm["body"]) if x.get("k") in ("Call", "MethodCall") and ((x.get("k") == "Call" and "f" in x and any(mentions_call(y, [T + "maybe_transform_expr_if_leavable"]) for y in through_locals(peel(x["f"])))) or callee_matches(x, [T + "maybe_transform_expr_if_leavable"]))]
                 ok = any(any(y.get("k") == "Field" and y["field"] == "expr" and peel_value(y["e"]).get("lid") in binds for y in walk(r)) for r in rec)
                 R.ob("C10-b", "a computed key / member expression is itself checked for leavability", ok,
                      "the `%s` arm does not pass the computed expression to the leavability check: `{ [compute()]: 1 }` would be emitted with the call intact" % pat_text(arm["pat"])[:60], where(arm["body"]))
@@ -132,7 +136,7 @@ def run(F, R, tier):
 
     # ---------------- C10-c ------------------------------------------------
     ti = F.body(T + "transform_item")
-    sm = [n for n in ti["_nodes"] if n["k"] == "Match" and expr_text(n["scrut"]) == "stmt"]
+    sm = [n for n in ti["_nodes"] if n["k"] == "Match" and tyc(F, n["scrut"], "::Stmt") and peel(n["scrut"]).get("res") == "local"]
     if R.ob("C10-c", "statement match found", len(sm) == 1, "shape changed", ti["file"]):
         ca = False
         seen = set()
@@ -162,7 +166,7 @@ def run(F, R, tier):
         R.ob("C10-c", "no catch-all over statement kinds", not ca and len(seen) >= 19, "catch-all=%s, %d kinds listed" % (ca, len(seen)), where(sm[0]))
 
     # ---------------- C10-d / e --------------------------------------------
-    cm = [n for n in tcm["_nodes"] if n["k"] == "Match" and expr_text(n["scrut"]) == "member"]
+    cm = [n for n in tcm["_nodes"] if n["k"] == "Match" and tyc(F, n["scrut"], "::ClassMember") and peel(n["scrut"]).get("lid") == tcm["body"]["params"][1].get("lid")]
     if R.ob("C10-e", "class member match found", len(cm) == 1, "shape changed", tcm["file"]):
         ca = False
         seen = set()
@@ -177,7 +181,7 @@ def run(F, R, tier):
                 R.ob("C10-e", "members %s are removed" % sorted(vs), ok, "ES-private members / static blocks can be retained", where(arm["body"]))
             if vs & {"Method", "ClassProp"}:
                 # TS-private path
-                priv = [n for n in walk(arm["body"]) if n["k"] == "If" and "Accessibility::Private" in expr_text(n["cond"]) and "accessibility" in expr_text(n["cond"])]
+                priv = [n for n in walk(arm["body"]) if n["k"] == "If" and any((ctor_of(y) or "").endswith("Accessibility::Private") for y in walk(n["cond"])) and mentions_field(n["cond"], "accessibility")]
                 if R.ob("C10-d", "%s: TypeScript-private members are special-cased" % sorted(vs)[0], len(priv) >= 1, "no `accessibility == Some(Private)` branch", where(arm["body"])):
                     th = priv[0]["then"]
                     R.ob("C10-d", "%s: private member is typed `any`" % sorted(vs)[0], any(callee_matches(n, ["any_type_ann"]) for n in walk(th)), "private branch does not use any_type_ann()", where(th))
